@@ -148,6 +148,10 @@ StepEvent(ev, n) ==
          \o Check(bad = {}, n, "C02.replay", bad)
          \o Check(ill = {}, n, "C02.applicable", ill)
          \o Check(Len(ev.direct) = Len(ev.stored), n, "C31.parallel", {})
+         \o (IF ev.tag = "ua"
+             THEN Check(BadDirect(obs, o2, ev.stored, ev.direct, ev.req) = {}, n, "C31.flags",
+                        BadDirect(obs, o2, ev.stored, ev.direct, ev.req))
+             ELSE <<>>)
          \o (IF ev.tag = "undo"
              THEN Check(o2 = snaps[ev.of], n, "C01.restore", DiffObs(o2, snaps[ev.of]))
              ELSE <<>>)
